@@ -391,6 +391,9 @@ func (r *Run) Finish(minDistinct int) {
 	}
 	if r.ReplayFile == "" {
 		dir := filepath.Join(Root(), "evidence")
+		if v := os.Getenv("VERIF_EVIDENCE_DIR"); v != "" {
+			dir = v
+		}
 		_ = os.MkdirAll(dir, 0o755)
 		b, err := json.MarshalIndent(ev, "", " ")
 		if err != nil {
